@@ -35,6 +35,28 @@ Definition recv_buffer (prev : buf) (size : nat) (stream : list N) : option (buf
 Definition recv_buffer_stale (prev : buf) (size : nat) (stream : list N) : option (buf * list N) :=
   read_full (pool_slice_stale prev size) size stream.
 
+(** ---- recv's appendBuffer as go2coq reads it (gen_recv_grow_cmp / gen_recv_decode_slice / gen_recv_read_slice) ----
+    The pooled buffer is its visible content [prev] (up to its length) plus [hid], the bytes between its
+    length and its capacity (send puts buffers back cut down, so earlier messages do sit there).
+    A view of it: SFirst = x[:size], SLen = *datap, SCap = x[:cap(x)]. *)
+Inductive slice := SFirst | SLen | SCap.
+
+Definition view (sl : slice) (prev hid : buf) (size : nat) : buf :=
+  match sl with SFirst => firstn size prev | SLen => prev | SCap => prev ++ hid end.
+
+(** if size > len(<cmp view>) a new zeroed buffer of exactly [size] bytes is made *)
+Definition grows (cmp : slice) (prev hid : buf) (size : nat) : bool :=
+  Nat.ltb (List.length (match cmp with SCap => prev ++ hid | _ => prev end)) size.
+
+(** what m.decode gets to see and what is left of the stream: ReadFrom fills the [rd] view completely (or recv
+    fails); the [dec] view shares its memory from index 0, so whatever it has beyond that stays visible *)
+Definition recv_buffer_g (cmp dec rd : slice) (prev hid : buf) (size : nat) (stream : list N) : option (buf * list N) :=
+  if grows cmp prev hid size then read_full (repeat 0 size) size stream
+  else
+    let k := List.length (view rd prev hid size) in
+    if Nat.ltb (List.length stream) k then None
+    else Some (firstn k stream ++ skipn k (view dec prev hid size), skipn k stream).
+
 (** ---- the server's read buffer ---- *)
 
 (** one Tread: the backend writes [written] at the start of the buffer and reports n;
